@@ -170,9 +170,11 @@ def execute(case, ctx):
             return progs, keep
         ctx.op(1)
         progs, keep = make("seq")
+        rb.alloc_fill(0x00)         # run one after another the simulations find other garbage in fresh heap memory than side by side
         SL.begin(sc["seed"], SL.POL_NONE)
         arr = SL.run_workers(progs, 0)
         SL.end()
+        rb.alloc_fill(0xCB)
         seq = [([arr[k].digests[i] for i in range(min(arr[k].ndig, arr[k].capdig))], arr[k].error) for k in range(len(progs))]
         ctx.op(2)
         rb.clock_set(step_us=0)
